@@ -294,6 +294,7 @@ code_info = _std_api.code_info
 _print = _std_api._print
 show_code = _std_api.show_code
 pretty_flags = _std_api.pretty_flags
+stack_effect = _std_api.stack_effect
 dis = _std_api.dis
 distb = _std_api.distb
 disassemble = _std_api.disassemble
